@@ -190,7 +190,7 @@ RET_TY = {
 def build(i, r):
     ch = r["method"] == "CHANNEL"
     name = f"e{i}"
-    base = f"/e{i}"
+    base = r.get("_base", f"/e{i}")
     path, req, pty = {
         "lit": (base, base, None),
         "lit2": (base + "/sub", base + "/sub", None),
@@ -529,7 +529,14 @@ pub fn run(out: &mut Out, id: &mut u64) {
         };
         for (d, _, _) in &decls {
             *id += 1;
-            out.line(&format!("pl {} {} {} => {} | {} | {}", id, vs, d.enc(), lf[k], li[k], ls[k]));
+            // declarations sharing this one's method and path (other version ranges) ride along:
+            // at a version outside this one's range the request belongs to one of them
+            let sibs: String = decls
+                .iter()
+                .filter(|(o, _, _)| o.name != d.name && o.method == d.method && o.path == d.path && o.channel == d.channel)
+                .map(|(o, _, _)| format!(" | {}", o.enc()))
+                .collect();
+            out.line(&format!("pl {} {} {}{} => {} | {} | {}", id, vs, d.enc(), sibs, lf[k], li[k], ls[k]));
             k += 1;
         }
     }
@@ -539,6 +546,15 @@ pub fn run(out: &mut Out, id: &mut u64) {
 
 def main():
     rows = choose_rows()
+    # adjacent version ranges on one method and path, declared newest first and oldest
+    # first: which endpoint serves a version must not depend on the order of declaration
+    def extra(base, versions, **kw):
+        r = dict(method="GET", path="lit", versions=versions, tags=4, opid=False, ct="none", max="none",
+                 deprecated="absent", unpublished="absent", doc=1, extract="none", ret="ok", _base=base)
+        r.update(kw)
+        return r
+    rows += [extra("/adj", "from_ident"), extra("/adj", "until_lit"),
+             extra("/adj2", "fromuntil_mixed"), extra("/adj2", "from_ident", opid=True)]
     built = [build(i, r) for i, r in enumerate(rows)]
     o = [HEADER]
     o.append("/// Declared once as free functions.\npub mod func {\n" + PRELUDE)
